@@ -24,6 +24,5 @@ func main() {
 	sequential(run)
 	// further sub-checks (e.g. concurrent(run)) go here
 
-	stopProf()
 	run.Finish()
 }
